@@ -636,6 +636,57 @@ def r12(ctx, facts, sers):
         raise AnchorLost("no by-name row serializer arms found")
 
 
+def r13(ctx, facts):
+    r = ctx.rule("R13", "ordered UDT type_check: a UDT field that is matched to a Rust field always has its type checked, also when it arrives through the look-ahead slot of a preceding allow_missing field", floor=5)
+    from ..util import dj_of
+    n = 0
+    for name, (kind, flavor, fields, derives) in sorted(FAMILY.items()):
+        if kind != "udt" or "d" not in derives or not flavor.startswith("order"):
+            continue
+        b = find_body(facts, r"^<derive_family::%s as scylla_cql_core::deserialize::value::DeserializeValue<'lifetime, 'lifetime_>>::type_check$" % name)
+        dj = dj_of(b, facts)
+        order = rpo_index(b)
+        fetch = sorted([c for bb, c in b.calls() if bb in b.live_blocks and (c.name or c.decl or "").endswith(("Option::<T>::or_else", "Iterator::next"))
+                        and "Option" in b.local_ty(c.dest[0]) and not c.dest[1]], key=lambda c: order.get(c.bb, 1 << 30))
+        tcs = sorted([c for bb, c in b.calls() if bb in b.live_blocks and c.decl == "scylla_cql_core::deserialize::value::DeserializeValue::type_check"], key=lambda c: order.get(c.bb, 1 << 30))
+        live_fields = [(f, cql) for f, cql, ty in fields if cql is not None]
+        if len(fetch) != len(live_fields) or len(tcs) != len(live_fields):
+            raise AnchorLost("%s::type_check: %d fetches / %d type checks for %d fields" % (name, len(fetch), len(tcs), len(live_fields)))
+        # parking a field for the next Rust field (the allow_missing name-mismatch path): a Some(..) stored into the look-ahead slot
+        parks = []
+        for bb in sorted(b.live_blocks):
+            for st in b.stmts(bb):
+                if st[0] == "A" and not st[1][1] and (b.local_name(st[1][0]) or "") == "saved_cql_field" and not (st[2][0] == "agg" and st[2][1][0] == "adt" and st[2][1][2] == "None"):
+                    parks.append(bb)
+        oks = [bb for bb in b.live_blocks for st in b.stmts(bb) if st[0] == "A" and st[1][0] == 0 and not st[1][1] and st[2][0] == "agg" and st[2][1][0] == "adt" and st[2][1][2] == "Ok"]
+        for k, ((f, cql), c, tc) in enumerate(zip(live_fields, fetch, tcs)):
+            n += 1
+            nxt = [fetch[k + 1].bb] if k + 1 < len(fetch) else []
+            key = ("disc", (c.dest[0], ()))
+            some_edges = []
+            for u in sorted(b.live_blocks):
+                if b.term(u)[0] != "switch":
+                    continue
+                before = dj.states_before_stmt(u, len(b.stmts(u)))
+                for v in b.succ[u]:
+                    sts = dj.states_on_edge(u, v)
+                    if sts and all(in_set(st.get(key), {1}) for st in sts) and not (before and all(in_set(st.get(key), {1}) for st in before)):
+                        some_edges.append((u, v))
+            if not some_edges:
+                r.fail("matched-field-is-type-checked:%s:%s" % (name, f), "the branch on `a UDT field was obtained` for field %s was not found" % f, c.span)
+                continue
+            skipped = False
+            for (u, v) in some_edges:
+                reach = dj.feasible_reach_edge(u, v, removed_nodes=[tc.bb] + parks)
+                if any(x in reach for x in nxt + oks):
+                    skipped = True
+            r.instance("matched-field-is-type-checked:%s:%s" % (name, f), not skipped,
+                       "after a UDT field was obtained for Rust field %s, type_check can go on to the next field (or accept) without checking the field's CQL type and without parking it for the next "
+                       "Rust field: a mismatched type is accepted and its bytes are reinterpreted by deserialize" % f, tc.span)
+    if n == 0:
+        raise AnchorLost("no ordered UDT type_check in the family")
+
+
 def switch_edges_(b, sw):
     t = b.term(sw)
     return {int(v): tg for v, tg in t[2]}, t[3]
@@ -648,7 +699,7 @@ def check(ctx):
         sers = r1(ctx, facts)
     except AnchorLost as ex:
         ctx.rule("R1x", "anchors").fail("anchor-lost", str(ex))
-    for fn in ((lambda c, f: r2(c, f, sers)), (lambda c, f: r12(c, f, sers)), r3, r4, r5, r6, r7, r8, r9, r10, r11):
+    for fn in ((lambda c, f: r2(c, f, sers)), (lambda c, f: r12(c, f, sers)), r3, r4, r5, r6, r7, r8, r9, r10, r11, r13):
         try:
             fn(ctx, facts)
         except AnchorLost as ex:
